@@ -157,6 +157,17 @@ Theorem C16_holds : forall c, valid c -> holds c (run_model c) = [].
 Proof. exact holds_model. Qed.
 Print Assumptions C16_holds.
 
+(* [valid c] is by definition the boolean [validb c] (C16/Entry.v) being true: every hypothesis of
+   C16_holds is decidable from the case.  The driver reports validb for every evaluated case (5th item of its
+   answer); where it is 1 the theorem applies to exactly that case. *)
+Theorem C16_validb_valid : forall c, validb c = true -> valid c.
+Proof. intros c H. exact H. Qed.
+Print Assumptions C16_validb_valid.
+
+Theorem C16_covered_cases : forall c, validb c = true -> holds c (run_model c) = [].
+Proof. intros c H. apply C16_holds. apply C16_validb_valid. exact H. Qed.
+Print Assumptions C16_covered_cases.
+
 (* ================= repaired defects: the old variants violate the property ================= *)
 (* D11 (before e42f082): "::1/+64" is malformed (mask not [0-9]+) but was rewritten to "::1/64" *)
 Theorem C16_refuted_D11_lenient_mask :
